@@ -8,7 +8,8 @@ Oracle (independent of the model): ghost-log predicates evaluated on the impleme
 reference parser on the bytes of the finished responses.
 
 case = {"eager": int, "sync": bool, "tmo": int|None, "abt": int|None,
-        "reqs": [{"pad": int, "close": bool, "body": None | ["cl", n] | ["chunked", [n...]], "script": [action...]}], "ops": [op...]}
+        "reqs": [{"pad": int, "close": bool, "body": None | ["cl", n] | ["chunked", [n...]], "script": [action...],
+                  "early": [notify actions performed in Request.gotLength, i.e. before the request is dispatched]}], "ops": [op...]}
 tmo / abt: HTTPChannel.timeOut / abortTimeout in seconds of a task.Clock the channel's callLater is bound to
 action: "n" notifyFinish | "n:<reaction>" notifyFinish with a callback/errback that, when the Deferred fires, synchronously
         does each letter of <reaction> (f finish, w write, n notifyFinish, l transport.loseConnection() if the transport
@@ -57,6 +58,7 @@ def _run(case):
 
     log: list[str] = []
     handed = []
+    created = []
     scripts = [q["script"] for q in case["reqs"]]
     ndef: dict[int, int] = {}
     nwr: dict[int, int] = {}
@@ -132,7 +134,7 @@ def _run(case):
                        lambda f: fired("-" if f.check(ConnectionDone) else f"?{f.type.__name__}"))
 
     def act(i, a):
-        req = handed[i]
+        req = created[i]
         try:
             if a[0] == "n":
                 k = ndef.get(i, 0)
@@ -164,18 +166,27 @@ def _run(case):
         idx = None
         _log = Logger(observer=lambda event: None)     # "Producer was not unregistered" goes nowhere
 
+        def __init__(self, *a, **kw):
+            http.Request.__init__(self, *a, **kw)
+            self.idx = len(created)            # requests are created, and later dispatched, in stream order
+            created.append(self)
+            log.append(f"C{self.idx}")
+
+        def gotLength(self, length):
+            http.Request.gotLength(self, length)
+            for a in case["reqs"][self.idx].get("early", []) if self.idx < len(case["reqs"]) else []:
+                act(self.idx, a)                # e.g. a subclass subscribing to notifyFinish before dispatch
+
         def process(self):
             i = len(handed)
             handed.append(self)
-            self.idx = i
-            log.append(f"P{i}")
+            log.append(f"P{i}" if i == self.idx else f"P{i}?created-as-{self.idx}")
             self.setHeader(b"x-req", b"%d" % i)
             for a in scripts[i]:
                 act(i, a)
 
         def connectionLost(self, reason):
-            if self.idx is not None:
-                log.append(f"L{self.idx}")
+            log.append(f"L{self.idx}")
             http.Request.connectionLost(self, reason)
 
     class Chan(http.HTTPChannel):
@@ -245,7 +256,20 @@ def impl(case) -> str:
 
 
 def model_equal(case, impl_obs, model_obs):
-    return impl_obs.split("#")[0] == model_obs
+    """the model starts at dispatch: creation (C i) and the loss fan-out to a request still being received are not in it"""
+    head = impl_obs.split("#")[0]
+    body, sep, closing = head.rpartition(" |")
+    dispatched, ops = set(), []
+    for w in body.split(" "):
+        keep = []
+        for e in ([] if w == "-" else w.split(",")):
+            if e.startswith("P"):
+                dispatched.add(e[1:])
+            if re.fullmatch(r"C\d+", e) or (re.fullmatch(r"L\d+", e) and e[1:] not in dispatched):
+                continue
+            keep.append(e)
+        ops.append(",".join(keep) if keep else "-")
+    return " ".join(ops) + sep + closing == model_obs
 
 
 # --------------------------------------------------------------------------------------------------
@@ -266,6 +290,7 @@ def check_log(case, obs):
     defs = {}              # (i, d) -> ["pending"|"fired", late?]
     netpaused, waiting, closed, conn_lost = False, False, False, False
     writes_of = {}
+    created_, dispatched_, nlost, at_loss = set(), set(), {}, set()
     delivered, ends, tot = 0, [], 0
     for i, q in enumerate(case["reqs"]):
         tot += len(req_bytes(i, q))
@@ -287,7 +312,15 @@ def check_log(case, obs):
             kind, i, j, sign = m.group(1), m.group(2), m.group(3), m.group(4)
             i = None if i is None else int(i)
             j = None if j is None else int(j)
+            if kind == "C":
+                if i != len(created_):
+                    bad.append(("creation-order", where + f"Request {i} created, expected {len(created_)}"))
+                created_.add(i)
+                continue
             if kind == "P":
+                dispatched_.add(i)
+                if i not in created_:
+                    bad.append(("process-order", where + f"request {i} dispatched but never created"))
                 if open_ is not None:
                     bad.append(("two-requests-in-application", where + f"request {i} handed over while request {open_} is unfinished"))
                 if i != nextp:
@@ -318,13 +351,18 @@ def check_log(case, obs):
                 if conn_lost:
                     bad.append(("connection-lost-twice", where + "connectionLost delivered again"))
                 conn_lost = True
+                at_loss = set(created_)          # (a synchronously reporting transport lets the LineReceiver loop create one
+                #                                   more Request after the loss; that one has nothing to be told)
             elif kind == "L":
                 if not conn_lost:
                     bad.append(("lost-fanout", where + f"connectionLost delivered to request {i} although the connection is there"))
-                if open_ != i:
+                receiving = i in created_ and i not in dispatched_
+                if open_ != i and not receiving:
                     bad.append(("lost-fanout", where + f"connectionLost delivered to request {i}, open request is {open_}"))
+                nlost[i] = nlost.get(i, 0) + 1
                 lost.add(i)
-                dead = True
+                if open_ == i:
+                    dead = True
             elif kind == "D":
                 defs[(i, j)] = ["pending", i in finished or i in lost]
             elif kind == "F":
@@ -355,6 +393,17 @@ def check_log(case, obs):
                 pass
             else:
                 bad.append(("unexpected-event", where + e))
+        # once the connection is lost, every Request the channel created whose response is not finished has been told
+        # so exactly once (also one that is still being received: headers complete, body incomplete)
+        if conn_lost:
+            for i in sorted(at_loss):
+                if i not in finished and nlost.get(i, 0) != 1:
+                    bad.append(("connection-loss-not-forwarded", where + f"Request {i} was created and has not finished, the connection "
+                                                                        f"is lost, but it got connectionLost {nlost.get(i, 0)} times"))
+                    break
+                if i in finished and nlost.get(i, 0) != 0:
+                    bad.append(("lost-fanout", where + f"finished request {i} got connectionLost"))
+                    break
         # at the end of every operation: nothing that should have fired is still pending
         for (i, d), (state, late) in defs.items():
             if state == "pending" and (i in finished or i in lost):
@@ -405,6 +454,9 @@ def _opt(v) -> str:
 
 
 def to_coq(case):
+    if any(r.get("early") for r in case["reqs"]):
+        return None          # the model starts at dispatch; Deferreds handed out in gotLength are checked by the oracle only
+
     def q(i, r):
         n = len(req_bytes(i, r))
         return (f"mkQ {n}%N {coq_bool(not r['close'])} {coq_bool(has_decoder(r))} "
@@ -441,7 +493,8 @@ SCRIPTS = ["", "", "f", "wf", "nf", "nwf", "nnwwf", "n", "nw", "w", "nn", "rwf",
 def _mk_reqs(rng, n):
     return [{"pad": rng.choice([0, 0, 0, 3, 17, 40]), "close": (rng.random() < 0.3) if i == n - 1 else (rng.random() < 0.07),
              "body": rng.choice([None, None, None, ["cl", 0], ["cl", 1], ["cl", 23], ["chunked", []], ["chunked", [5]], ["chunked", [1, 17, 2]]]),
-             "script": _script(rng, rng.choice(SCRIPTS))} for i in range(n)]
+             "script": _script(rng, rng.choice(SCRIPTS)),
+             "early": ([_notify(rng, 0.5)] if rng.random() < 0.12 else [])} for i in range(n)]
 
 
 def _random_case(rng, big=False):
@@ -539,6 +592,22 @@ def gen(rng, tier):
                             ops.append(o)
                         if ops:
                             cases.append({"eager": 30, "sync": sync, "tmo": 5, "abt": 3, "reqs": reqs, "ops": ops})
+    # a request whose headers are complete and whose body is not: loss / timeout / more data at that point, with and
+    # without a Deferred taken in gotLength
+    for body in (["cl", 9], ["chunked", [4, 3]]):
+        for early in ([], ["n"], ["n:fn"], ["n:w", "n"]):
+            for first in ("f", ""):
+                reqs = [{"pad": 0, "close": False, "body": None, "script": first, "early": []},
+                        {"pad": 0, "close": False, "body": body, "script": "nf", "early": early}]
+                l0 = len(req_bytes(0, reqs[0]))
+                l1 = len(req_bytes(1, reqs[1]))
+                blen = 9 if body[0] == "cl" else len(b"4\r\ncccc\r\n3\r\nccc\r\n0\r\n\r\n")
+                head1 = l1 - blen
+                for cut in (l0 + 5, l0 + head1 - 1, l0 + head1, l0 + head1 + 1, l0 + l1 - 1):
+                    for tail in ([["lose"]], [["lose"], ["app", 1, "n"]], [["data", l0 + l1 - cut], ["lose"]], [["app", 0, "f"], ["lose"]],
+                                 [["tick", 5], ["lose"]]):
+                        cases.append({"eager": 16384, "sync": rng.random() < 0.3, "tmo": 5, "abt": None, "reqs": reqs,
+                                      "ops": [["data", cut]] + tail})
     for _ in range(1200 if tier == "quick" else 15000):
         cases.append(_random_case(rng))
     for _ in range(6 if tier == "quick" else 60):
@@ -570,6 +639,10 @@ def corpus():
         {"eager": 16384, "sync": True, "reqs": [{"pad": 0, "close": True, "script": ["n:ln", "w", "f"]}, {"pad": 0, "close": False, "script": "f"}],
          "ops": [["data", 200], ["lose"]]},
         # idle timeout while half of the second request is buffered, then forceAbortClient; timeout disabled while handling
+        # the connection is lost while the second request's body is half received; its Deferred was taken in gotLength
+        {"eager": 16384, "sync": False, "tmo": None, "abt": None,
+         "reqs": [{"pad": 0, "close": False, "script": "f"}, {"pad": 0, "close": False, "body": ["cl", 9], "script": "f", "early": ["n:n"]}],
+         "ops": [["data", 80], ["lose"], ["app", 1, "n"]]},
         {"eager": 16384, "sync": False, "tmo": 5, "abt": 3,
          "reqs": [{"pad": 0, "close": False, "script": "f"}, {"pad": 0, "close": False, "body": ["cl", 9], "script": ""}],
          "ops": [["data", 50], ["tick", 4], ["tick", 1], ["tick", 3], ["lose"]]},
